@@ -593,6 +593,8 @@ class Domain(object):
                 if node.frame.parent is None:
                     hs = st0.extra.get('root_handlers', frozenset())
                     st0.extra['root_handlers'] = hs | {node.info['handler'].lineno}
+                    srcs = st0.extra.get('root_handler_sources', frozenset())
+                    st0.extra['root_handler_sources'] = srcs | {(node.info['handler'].lineno, str(state.extra.get('exc_src', '?')))}
                 state = st0
             if node.info.get('finally_tag'):
                 state = self.on_stmt(node, state)
